@@ -21,6 +21,15 @@ ALL_CODES = ["OK"] + ERR_CODES
 PKGS = ["acme.lib.v1", "acme.store.v2", "acme.deep.store.v1beta1"]
 SERVICES = ["Library", "Archive", "Shelver"]
 METHODS = ["GetBook", "ListBooks", "CreateBook", "DeleteBook", "UpdateBook", "StreamBooks", "MoveBook", "Ping", "GetIAMThing"]
+MIXIN_RPCS = {      # api name -> (rpc, http verb, uri, python request class, proto request type, request valuation)
+    "google.longrunning.Operations": ("GetOperation", "get", "/v1/{name=operations/*}",
+                                      "google.longrunning.operations_pb2:GetOperationRequest", "google.longrunning.GetOperationRequest", {"name": "operations/x"}),
+    "google.cloud.location.Locations": ("GetLocation", "get", "/v1/{name=projects/*/locations/*}",
+                                        "google.cloud.location.locations_pb2:GetLocationRequest", "google.cloud.location.GetLocationRequest", {"name": "projects/p/locations/l"}),
+}
+EDGE_BACKOFFS = ["0s", "0.0s", "0.000001s", "0.000000001s", "3600s", "86400s", "1000000n", "30s", "0.999999999s"]
+EDGE_TIMEOUTS = ["3600s", "86400s", "315360000s", "1.000000001s", "0.999s", "1.0s", "100.5s", "0.1s"]
+EDGE_MULTS = [1.0, 2.0, 10, 100, 1.000001, 0.25, 0.999, 1e3, 7]
 BACKOFFS = ["0.1s", "0.25s", "0.5s", "1s", "1.5s", "2s", "0.125s", "0.3s", "0.75s", "0.05s", "3.5s", "0.010s",
             "1.000s", "0.100s", "4s", "0.2s"]
 MAXES = ["1s", "2s", "5s", "10s", "60s", "0.5s", "32s", "2.5s", "0.4s", "7.25s"]
@@ -38,10 +47,14 @@ def gen_policy(r, thorough=False):
         p["maxAttempts"] = r.randint(2, 6)
     if not r.maybe(0.06):
         p["initialBackoff"] = r.pick(BACKOFFS) if not r.maybe(0.05) else r.pick(["250000000n", "100000000n"])
+        if r.maybe(0.12):
+            p["initialBackoff"] = r.pick(EDGE_BACKOFFS)
     if not r.maybe(0.06):
-        p["maxBackoff"] = r.pick(MAXES)
+        p["maxBackoff"] = r.pick(MAXES) if not r.maybe(0.12) else r.pick(EDGE_BACKOFFS)      # also: maximum below initial, "0s"
     if not r.maybe(0.06):
         p["backoffMultiplier"] = r.pick(MULTS) if not r.maybe(0.06) else 0.5
+        if r.maybe(0.12):
+            p["backoffMultiplier"] = r.pick(EDGE_MULTS)
     k = r.pick([1, 1, 2, 2, 3, 4, 6]) if not thorough else r.pick([1, 2, 3, 4, 6, 9, 16])
     codes = []
     for _ in range(k):
@@ -61,17 +74,26 @@ def gen_spec(r, idx, thorough=False):
         ms = []
         for m in r.sample(METHODS, r.randint(3, 5)):
             kind = "sstream" if m == "StreamBooks" or r.maybe(0.12) else ("paged" if m == "ListBooks" and r.maybe(0.6) else "unary")
+            if kind == "unary" and r.maybe(0.2):
+                kind = r.pick(["lro", "lro", "cstream", "bidi"])       # cstream / bidi: table entry only (retrying a consumed request stream is not in the statement)
             ms.append({"name": m, "kind": kind})
         svcs.append({"name": sname, "methods": ms})
     pairs = [(f"{pkg}.{s['name']}", m["name"]) for s in svcs for m in s["methods"]]
+    mixins = [a for a in MIXIN_RPCS if r.maybe(0.18)]
+    mixin_pairs = [(a, MIXIN_RPCS[a][0]) for a in mixins]
     entries = []
     for _ in range(r.randint(1, 4)):
         names = []
         for _ in range(r.pick([1, 1, 2, 3, 4])):
             roll = r.random()
             sv, me = r.pick(pairs)
-            if roll < 0.62:
+            if mixin_pairs and r.maybe(0.15):
+                sv, me = r.pick(mixin_pairs)                                    # a mixin RPC named in the service config
                 names.append({"service": sv, "method": me})
+            elif roll < 0.60:
+                names.append({"service": sv, "method": me})
+            elif roll < 0.62:
+                names.append({})                                                # the catch-all default name: names no method
             elif roll < 0.72:
                 names.append({"service": sv})                                   # service-wide: names no method
             elif roll < 0.80:
@@ -84,29 +106,60 @@ def gen_spec(r, idx, thorough=False):
                 names.append({"service": sv.replace(pkg, pkg + "x"), "method": me})    # another package
         e = {"name": names}
         if r.maybe(0.72):
-            e["timeout"] = r.pick(TIMEOUTS)
+            e["timeout"] = r.pick(TIMEOUTS) if not r.maybe(0.1) else r.pick(EDGE_TIMEOUTS)
         if r.maybe(0.72):
             e["retryPolicy"] = gen_policy(r, thorough)
         entries.append(e)
-    return {"package": pkg, "services": svcs, "config": {"methodConfig": entries},
-            "transport": r.pick(["grpc", "grpc", "grpc+rest"])}
+    transport = r.pick(["grpc", "grpc", "grpc+rest"])
+    spec = {"package": pkg, "services": svcs, "config": {"methodConfig": entries}, "transport": transport,
+            "split_files": nsvc > 1 and r.maybe(0.4), "mixins": mixins, "rest_async": "rest" in transport and r.maybe(0.5)}
+    if r.maybe(0.2):
+        # an EARLIER retry-config option: only the last file counts (Options.build)
+        spec["decoy"] = {"methodConfig": [{"name": [{"service": sv, "method": me} for sv, me in pairs], "timeout": "99s",
+                                           "retryPolicy": {"initialBackoff": "9s", "maxBackoff": "9s", "backoffMultiplier": 9, "retryableStatusCodes": ["DATA_LOSS"]}}]}
+    return spec
 
 
 def build_files(spec):
     pkg = spec["package"]
-    f = apigen.File(pkg.replace(".", "/") + "/lib.proto", pkg)
+    base = pkg.replace(".", "/")
+    f = apigen.File(base + "/lib.proto", pkg)
     book = f.msg("Book"); book.field("name"); book.field("pages", "int32")
+    meta = f.msg("Meta"); meta.field("pct", "int32")
     rq = f.msg("BookRequest"); rq.field("name")
     lrq = f.msg("ListRequest"); lrq.field("parent"); lrq.field("page_size", "int32"); lrq.field("page_token")
     lrs = f.msg("ListResponse"); lrs.field("books", "message", repeated=True, type_name=book); lrs.field("next_page_token")
-    for s in spec["services"]:
-        svc = f.service(s["name"])
+    files = [f]
+    for k, s in enumerate(spec["services"]):
+        tgt = f
+        if spec.get("split_files") and k > 0:          # later services live in their own proto file of the same package
+            tgt = apigen.File(f"{base}/lib{k + 1}.proto", pkg).dep(base + "/lib.proto")
+            files.append(tgt)
+        svc = tgt.service(s["name"])
         for m in s["methods"]:
-            if m["kind"] == "paged":
-                svc.method(m["name"], lrq, lrs)
+            kind = m["kind"]
+            if kind == "paged":
+                svc.method(m["name"], f".{pkg}.ListRequest", f".{pkg}.ListResponse")
+            elif kind == "lro":
+                svc.method(m["name"], f".{pkg}.BookRequest", ".google.longrunning.Operation", lro=("Book", "Meta"))
             else:
-                svc.method(m["name"], rq, book, ss=(m["kind"] == "sstream"))
-    return [f]
+                svc.method(m["name"], f".{pkg}.BookRequest", f".{pkg}.Book", ss=kind in ("sstream", "bidi"), cs=kind in ("cstream", "bidi"))
+    return files
+
+
+def service_yaml(spec):
+    """the service yaml an API with mixins / the experimental async REST transport needs (None when neither)"""
+    if not spec.get("mixins") and not spec.get("rest_async"):
+        return None
+    pkg = spec["package"]
+    y = {"type": "google.api.Service", "config_version": 3, "name": "lib.example.com",
+         "apis": [{"name": f"{pkg}.{s['name']}"} for s in spec["services"]] + [{"name": a} for a in spec.get("mixins", [])]}
+    rules = [{"selector": f"{a}.{MIXIN_RPCS[a][0]}", MIXIN_RPCS[a][1]: MIXIN_RPCS[a][2]} for a in spec.get("mixins", [])]
+    if rules:
+        y["http"] = {"rules": rules}
+    if spec.get("rest_async"):
+        y["publishing"] = {"library_settings": [{"version": pkg, "python_settings": {"experimental_features": {"rest_async_io_enabled": True}}}]}
+    return y
 
 # ------------------------------------------------------------------ the statement, restated (oracle side)
 
@@ -176,8 +229,37 @@ DUR_SAMPLES = ["1.5s", "30s", "0.250s", "250000000n", "0.000000001s", "7.s", ".5
                "0s", "0.0s", "12.345s", "600s", "1x", "abc", "1.2.3s", "n", "1.5n", "3.14159s", "0.1s", "0.3s", "100s"]
 
 
+_TO_FLOAT_VIA_BUILD = [False]
+
+
+def real_to_float(s):
+    """the generator's reading of a duration literal.  Directly through `_ProtoBuilder._to_float` while that helper
+    exists with this shape; otherwise (a refactoring moved or re-shaped it) through the public path: a one-method
+    API whose service config carries the literal as `timeout`, read back from the real `Method.timeout`."""
+    if not _TO_FLOAT_VIA_BUILD[0]:
+        try:
+            from gapic.schema import api as gapi
+            return gapi._ProtoBuilder._to_float(None, s)
+        except ValueError:
+            return "ValueError"
+        except (AttributeError, TypeError):
+            _TO_FLOAT_VIA_BUILD[0] = True
+    if not s:
+        return "ValueError"           # `if mc.get("timeout")`: an empty literal never reaches the conversion
+    spec = {"package": "acme.lib.v1", "services": [{"name": "Library", "methods": [{"name": "GetBook", "kind": "unary"}]}]}
+    fd, path = tempfile.mkstemp(prefix="gapicverif_c09_", suffix=".json", dir=genrun.SCRATCH)
+    with os.fdopen(fd, "w") as fh:
+        json.dump({"methodConfig": [{"name": [{"service": "acme.lib.v1.Library", "method": "GetBook"}], "timeout": s}]}, fh)
+    try:
+        api, _ = genrun.build_api(apigen.request(build_files(spec), f"transport=grpc,autogen-snippets=false,retry-config={path}"))
+        return api.services["acme.lib.v1.Library"].methods["GetBook"].timeout
+    except ValueError:
+        return "ValueError"
+    finally:
+        os.unlink(path)
+
+
 def check_helpers(ctx, r):
-    from gapic.schema import api as gapi
     samples = list(DUR_SAMPLES)
     for _ in range(ctx.n(60, 600)):
         ip = str(r.randrange(0, r.pick([10, 100, 100000])))
@@ -188,10 +270,7 @@ def check_helpers(ctx, r):
         samples.append(s + r.pick(["s", "s", "s", "s", "m", "S"]) if not r.maybe(0.15) else str(r.randrange(0, 10 ** r.randint(1, 12))) + "n")
     res = ctx.driver.ask([{"op": "c09.to_float", "s": s} for s in samples])
     for s, mo in zip(samples, res):
-        try:
-            impl = gapi._ProtoBuilder._to_float(None, s)
-        except ValueError:
-            impl = "ValueError"
+        impl = real_to_float(s)
         ctx.case({"to_float": s}, distinct_key=["dur", s])
         ctx.traces += 1
         ctx.count("t2_to_float", "value" if mo["value"] is not None else "outside-model")
@@ -226,7 +305,15 @@ def gen_calls(r, spec, ctx_n):
     plans = []
     for s in spec["services"]:
         svc_full = f"{spec['package']}.{s['name']}"
+        for a in spec.get("mixins", []):          # mixin RPCs are called through every service's client
+            rpcname = MIXIN_RPCS[a][0]
+            named = statement_defaults(cfg, a, rpcname)["named"]
+            for replies, ck in ((["OK"], {}), ([r.pick(ERR_CODES), "OK"], {}), ([r.pick(ERR_CODES), "OK"], {"timeout": 4.5})):
+                plans.append({"service": s["name"], "svc_full": a, "method": rpcname, "kind": "mixin", "replies": replies,
+                              "call_kwargs": ck, "mixin_named": named})
         for m in s["methods"]:
+            if m["kind"] in ("cstream", "bidi"):
+                continue                           # table entry only
             st = statement_defaults(cfg, svc_full, m["name"])
             seqs = []
             rp = st["retry"]
@@ -243,6 +330,9 @@ def gen_calls(r, spec, ctx_n):
                 seqs.append(([r.pick(codes), r.pick(codes), "OK"], {"timeout": r.pick([2.5, 40.0, 9.75])}))
                 seqs.append(([r.pick(codes), "OK"], {"retry": "none"}))
                 seqs.append(([r.pick(codes), "OK"], {"retry": "none", "timeout": "none"}))
+                seqs.append(([r.pick(codes), r.pick(codes), "OK"], {"timeout": "none"}))      # no per-attempt deadline, the retry deadline stays
+                if r.maybe(0.3):
+                    seqs.append(([r.pick(codes), "OK"], {"timeout": r.pick([3, 12])}))         # an int, not a float
             else:
                 seqs.append((["OK"], {}))
                 seqs.append(([r.pick(ERR_CODES), "OK"], {}))
@@ -260,7 +350,8 @@ def gen_calls(r, spec, ctx_n):
 
 def model_op(spec, plan, jitter=1):
     ck = plan["call_kwargs"]
-    op = {"op": "c09.call", "config": spec["config"], "service": plan["svc_full"], "method": plan["method"],
+    op = {"op": "c09.call", "configs": ([spec["decoy"]] if spec.get("decoy") else []) + [spec["config"]],
+          "mixin": plan["kind"] == "mixin", "service": plan["svc_full"], "method": plan["method"],
           "replies": plan["replies"] + ["OK"],       # the loopback server answers OK once its script is used up
           "jitter": [], "jitter_tail": jitter, "retry": "default", "timeout": "default"}
     if ck.get("retry") == "none":
@@ -292,8 +383,26 @@ def run_api(ctx, r, spec, label, plans=None):
     with os.fdopen(fd, "w") as fh:
         json.dump(spec["config"], fh)
     root = None
+    extra_paths = []
     try:
-        req = apigen.request(files, f"transport={spec['transport']},autogen-snippets=false,retry-config={cfgpath}")
+        params = f"transport={spec['transport']},autogen-snippets=false"
+        if spec.get("decoy"):
+            fd2, dpath = tempfile.mkstemp(prefix="gapicverif_c09_", suffix=".json", dir=genrun.SCRATCH)
+            with os.fdopen(fd2, "w") as fh:
+                json.dump(spec["decoy"], fh)
+            extra_paths.append(dpath)
+            params += f",retry-config={dpath}"
+        params += f",retry-config={cfgpath}"
+        yml = service_yaml(spec)
+        if yml is not None:
+            import yaml
+            fd3, ypath = tempfile.mkstemp(prefix="gapicverif_c09_", suffix=".yaml", dir=genrun.SCRATCH)
+            with os.fdopen(fd3, "w") as fh:
+                yaml.safe_dump(yml, fh)
+            extra_paths.append(ypath)
+            params += f",service-yaml={ypath}"
+        req = apigen.request(files, params)
+        configs = ([spec["decoy"]] if spec.get("decoy") else []) + [spec["config"]]      # what Options.build is given, in order
         try:
             api, _ = genrun.build_api(req)
         except BaseException as e:  # noqa
@@ -304,7 +413,7 @@ def run_api(ctx, r, spec, label, plans=None):
         ops, keys = [], []
         for s in spec["services"]:
             for m in s["methods"]:
-                ops.append({"op": "c09.defaults", "config": spec["config"], "service": f"{pkg}.{s['name']}", "method": m["name"]})
+                ops.append({"op": "c09.defaults", "configs": configs, "service": f"{pkg}.{s['name']}", "method": m["name"]})
                 keys.append((s["name"], m["name"]))
         model = dict(zip(keys, ctx.driver.ask(ops)))
         for (sn, mn), mo in model.items():
@@ -344,13 +453,21 @@ def run_api(ctx, r, spec, label, plans=None):
         root = genrun.materialise(res)
         import gapic.utils as gu
         sessions, meta = [], []
+        mixin_rpcs = sorted(api.mixin_api_methods.keys())          # the real schema object's list
+        tops = [{"op": "c09.table", "configs": configs, "service": f"{pkg}.{s['name']}", "methods": [m["name"] for m in s["methods"]],
+                 "mixins": mixin_rpcs} for s in spec["services"]]
+        tables = {s["name"]: t for s, t in zip(spec["services"], ctx.driver.ask(tops))}
         for s in spec["services"]:
             svc = api.services[f"{pkg}.{s['name']}"]
             loc = rpc.py_locations(api, svc)
-            kinds = ["grpc", "grpc_asyncio"] + (["rest"] if "rest" in spec["transport"] else [])
+            loc["rest_asyncio"] = f"{loc['service_module']}.transports.rest_asyncio:Async{svc.name}RestTransport"
+            kinds = ["grpc", "grpc_asyncio"] + (["rest"] if "rest" in spec["transport"] else []) + \
+                    (["rest_asyncio"] if "rest" in spec["transport"] and spec.get("rest_async") else [])
+            keys = {m["name"]: gu.to_snake_case(svc.methods[m["name"]].transport_safe_name) for m in s["methods"]}   # real Method objects
+            keys.update({x: gu.to_snake_case(x) for x in mixin_rpcs})
             for kind in kinds:
-                sessions.append({"op": "wrapped_by_name", "transport": loc[kind], "kind": kind})
-                meta.append(("table", s, kind, None))
+                sessions.append({"op": "c09_table", "transport": loc[kind], "kind": kind})
+                meta.append(("table", s, kind, (keys, mixin_rpcs, tables[s["name"]])))
         codec = rpc.Codec(files)
         plans = plans if plans is not None else gen_calls(r, spec, ctx.n(2, 3))
         modes = (1.0, None) if ctx.quick else (1.0, None, 0.5)       # jitter pinned to 1 / random / pinned to 1/2
@@ -367,7 +484,8 @@ def run_api(ctx, r, spec, label, plans=None):
                     for p, mo in [(p, mo) for p, mo in zip(plans, mres_by[jitter]) if p["service"] == s["name"]]:
                         if "attempts" not in mo:
                             continue
-                        m = svc.methods[p["method"]]
+                        if p["kind"] == "mixin" and p["method"] not in mixin_rpcs:
+                            continue
                         ck = copy.deepcopy(p["call_kwargs"])
                         xr = ck.get("retry") if isinstance(ck.get("retry"), dict) else None
                         if xr is not None:
@@ -378,19 +496,26 @@ def run_api(ctx, r, spec, label, plans=None):
                         if xr is not None:
                             dl = None if xr["deadline"] is None else Fraction(Decimal(repr(xr["deadline"])))
                         elif ck.get("retry") != "none":
-                            st = statement_defaults(spec["config"], p["svc_full"], p["method"])
+                            st = statement_defaults(spec["config"], p["svc_full"], p["method"]) if p["kind"] != "mixin" else MIXIN_NONE
                             dl = st["retry"]["deadline"] if st["retry"] else None
                         if near_threshold(mo, dl, jitter or 1):
                             ctx.count("skipped", "near-deadline-threshold")
                             continue
                         if jitter is None and mo["result"] == "retry_error":
                             continue          # with random jitter the moment the deadline strikes is not determined
-                        path = f"/{pkg}.{s['name']}/{p['method']}"
-                        req_full = m.input.ident.proto
-                        calls.append({"method": gu.to_snake_case(m.client_method_name) if hasattr(m, "client_method_name") else gu.to_snake_case(m.name),
-                                      "mode": "request-instance", "py_request": rpc.py_type(m.input),
-                                      "request_b64": codec.encode_b64(req_full, {"parent": "x"} if p["kind"] == "paged" else {"name": "x"}),
-                                      "consume": {"unary": "value", "sstream": "stream", "paged": "pager"}[p["kind"]],
+                        if p["kind"] == "mixin":
+                            rpcname, _, _, pyreq, req_full, reqd = MIXIN_RPCS[p["svc_full"]]
+                            path = f"/{p['svc_full']}/{rpcname}"
+                            cname = gu.to_snake_case(rpcname)
+                        else:
+                            m = svc.methods[p["method"]]
+                            path = f"/{pkg}.{s['name']}/{p['method']}"
+                            req_full, pyreq = m.input.ident.proto, rpc.py_type(m.input)
+                            reqd = {"parent": "x"} if p["kind"] == "paged" else {"name": "x"}
+                            cname = gu.to_snake_case(m.client_method_name)
+                        calls.append({"method": cname, "mode": "request-instance", "py_request": pyreq,
+                                      "request_b64": codec.encode_b64(req_full, reqd),
+                                      "consume": {"unary": "value", "sstream": "stream", "paged": "pager", "lro": "value", "mixin": "value"}[p["kind"]],
                                       "call_kwargs": ck, "script": {path: [{"code": c} for c in p["replies"]]}})
                         kept.append((p, mo))
                     if not calls:
@@ -402,20 +527,24 @@ def run_api(ctx, r, spec, label, plans=None):
         out = libhost.run(root, sessions, timeout=900)
         for (what, s, a, extra), sess in zip(meta, out):
             if what == "table":
-                check_table(ctx, spec, s, a, sess, model)
+                check_table(ctx, spec, s, a, sess, extra)
             else:
                 check_calls(ctx, spec, s, a, extra[0], extra[1], sess)
     finally:
-        try:
-            os.unlink(cfgpath)
-        except OSError:
-            pass
+        for pth in [cfgpath] + extra_paths:
+            try:
+                os.unlink(pth)
+            except OSError:
+                pass
         if root:
             genrun.cleanup(root)
 
 
-def check_table(ctx, spec, s, kind, sess, model):
-    import gapic.utils as gu
+MIXIN_NONE = {"named": False, "timeout": None, "retry": None}
+
+
+def check_table(ctx, spec, s, kind, sess, extra):
+    keys, mixin_rpcs, mtab = extra
     pkg = spec["package"]
     if "wrapped" not in sess:
         ctx.fail("session-failed", f"introspection of the {kind} transport failed: {str(sess)[-400:]}", {"spec": spec})
@@ -423,59 +552,75 @@ def check_table(ctx, spec, s, kind, sess, model):
     tab = sess["wrapped"]
     if sess.get("unmatched"):
         ctx.fail("table-entry-unreachable", f"{s['name']} ({kind}): {sess['unmatched']} entries of _wrapped_methods are not keyed by a transport property", {"spec": spec})
-    for m in s["methods"]:
-        payload = {"spec": spec, "service": s["name"], "method": m["name"], "transport": kind}
-        key = gu.to_snake_case(m["name"])
+    model = {n: e for n, e in mtab["table"]} if "table" in mtab else {}
+    if "table" in mtab and sess.get("entries") != len(mtab["table"]):
+        ctx.disagree("T3:c09.table.size", f"{s['name']} ({kind}): model {len(mtab['table'])} entries vs impl {sess.get('entries')}", {"spec": spec, "transport": kind})
+    rows = [(m["name"], m["kind"], False) for m in s["methods"]] + [(x, "mixin", True) for x in mixin_rpcs]
+    for name, mkind, is_mixin in rows:
+        payload = {"spec": spec, "service": s["name"], "method": name, "transport": kind}
+        key = keys[name]
         ent = tab.get(key)
-        ctx.case(None, distinct_key=["table", json.dumps(spec["config"], sort_keys=True), pkg, s["name"], m["name"], kind])
+        ctx.case(None, distinct_key=["table", json.dumps(spec["config"], sort_keys=True), pkg, s["name"], name, kind])
         ctx.count("table_transport", kind)
+        ctx.count("table_method_kind", mkind)
         if ent is None:
-            ctx.fail("table-entry-missing", f"{s['name']}.{m['name']} ({kind}): no _wrapped_methods entry under transport.{key}", payload)
+            ctx.fail("table-entry-missing", f"{s['name']}.{name} ({kind}): no _wrapped_methods entry under transport.{key}", payload)
             continue
-        st = statement_defaults(spec["config"], f"{pkg}.{s['name']}", m["name"])
+        if is_mixin:
+            api_name = next(a for a in spec.get("mixins", []) if MIXIN_RPCS[a][0] == name)
+            if statement_defaults(spec["config"], api_name, name)["named"]:
+                ctx.count("excluded_point", "mixin RPC named in the service config")
+                ctx.assume("the methods of the statement are the RPCs of the API's own services: a MIXIN RPC (google.longrunning.Operations/…, "
+                           "google.cloud.location.Locations/…) gets the literal default_timeout=None and no default retry even when the service config names it")
+            st = MIXIN_NONE
+        else:
+            st = statement_defaults(spec["config"], f"{pkg}.{s['name']}", name)
         # ---- oracle: the emitted defaults ARE the entry's values
         t = ent["timeout"]
         if (t is None) != (st["timeout"] is None) or (t is not None and t != float(st["timeout"])):
-            ctx.fail("emitted-default-timeout", f"{s['name']}.{m['name']} ({kind}): default_timeout={t!r}, the entry says {st['timeout']}", payload)
+            ctx.fail("emitted-default-timeout", f"{s['name']}.{name} ({kind}): default_timeout={t!r}, the entry says {st['timeout']}", payload)
         er = ent["retry"]
         if (er is None) != (st["retry"] is None):
-            ctx.fail("emitted-retry-presence", f"{s['name']}.{m['name']} ({kind}): default_retry {'present' if er else 'absent'}, statement expects {'one' if st['retry'] else 'none'}", payload)
+            ctx.fail("emitted-retry-presence", f"{s['name']}.{name} ({kind}): default_retry {'present' if er else 'absent'}, statement expects {'one' if st['retry'] else 'none'}", payload)
         elif er is not None:
             rp = st["retry"]
             want_cls = sorted(api_core_class(c).__name__ for c in rp["codes"])
             if sorted(er["exceptions"] or []) != want_cls and "OK" not in rp["codes"]:
-                ctx.fail("emitted-retry-codes", f"{s['name']}.{m['name']} ({kind}): predicate {er['exceptions']} for codes {rp['codes']}", payload)
+                ctx.fail("emitted-retry-codes", f"{s['name']}.{name} ({kind}): predicate {er['exceptions']} for codes {rp['codes']}", payload)
             if "OK" in rp["codes"] and "GoogleAPICallError" in (er["exceptions"] or []):
-                ctx.fail("ok-code-retries-every-error", f"{s['name']}.{m['name']} ({kind}): `OK` in retryableStatusCodes puts the base class GoogleAPICallError into the predicate: every error is retried", payload)
+                ctx.fail("ok-code-retries-every-error", f"{s['name']}.{name} ({kind}): `OK` in retryableStatusCodes puts the base class GoogleAPICallError into the predicate: every error is retried", payload)
             for k in ("initial", "maximum", "multiplier"):
                 if er[k] != float(rp[k]):
-                    ctx.fail("emitted-backoff-" + k, f"{s['name']}.{m['name']} ({kind}): Retry.{k}={er[k]!r}, the entry says {rp[k]}", payload)
+                    ctx.fail("emitted-backoff-" + k, f"{s['name']}.{name} ({kind}): Retry.{k}={er[k]!r}, the entry says {rp[k]}", payload)
             if rp["defaulted"]:
                 ctx.assume("initialBackoff/maxBackoff/backoffMultiplier absent or 0 are not emitted; api-core's defaults 1 s / 60 s / x2 apply (DESIGN §7.9 forced hypothesis)")
             d = er["deadline"]
             if (d is None) != (rp["deadline"] is None) or (d is not None and d != float(rp["deadline"])):
-                ctx.fail("emitted-retry-deadline", f"{s['name']}.{m['name']} ({kind}): Retry deadline={d!r}, the entry's timeout is {rp['deadline']}", payload)
-            want_type = "AsyncRetry" if kind == "grpc_asyncio" else "Retry"
+                ctx.fail("emitted-retry-deadline", f"{s['name']}.{name} ({kind}): Retry deadline={d!r}, the entry's timeout is {rp['deadline']}", payload)
+            want_type = "AsyncRetry" if kind in ("grpc_asyncio", "rest_asyncio") else "Retry"
             if er.get("pytype") != want_type:
-                ctx.fail("emitted-retry-type", f"{s['name']}.{m['name']} ({kind}): default retry is a {er.get('pytype')}", payload)
-        # ---- correspondence with the model
-        mo = model.get((s["name"], m["name"]))
-        if not mo or "emitted" not in mo:
+                ctx.fail("emitted-retry-type", f"{s['name']}.{name} ({kind}): default retry is a {er.get('pytype')}", payload)
+        # ---- correspondence with the model (c09.table: the whole table of the service)
+        em = model.get(name)
+        if em is None:
+            if "table" in mtab:
+                ctx.disagree("T3:c09.table.entry", f"{s['name']}.{name} ({kind}): the model's table has no such entry", payload)
+            else:
+                ctx.unsupported += 1
             continue
         ctx.traces += 1
-        em = mo["emitted"]
         mt = None if em["timeout"] is None else float(frac(em["timeout"]))
         if mt != t:
-            ctx.disagree("T3:c09.table.timeout", f"{s['name']}.{m['name']} ({kind}): model {mt} vs impl {t}", payload)
+            ctx.disagree("T3:c09.table.timeout", f"{s['name']}.{name} ({kind}): model {mt} vs impl {t}", payload)
         if (em["effective"] is None) != (er is None):
-            ctx.disagree("T3:c09.table.retry", f"{s['name']}.{m['name']} ({kind}): model {em['effective']} vs impl {er}", payload)
+            ctx.disagree("T3:c09.table.retry", f"{s['name']}.{name} ({kind}): model {em['effective']} vs impl {er}", payload)
         elif er is not None:
             ef = em["effective"]
             want = (float(frac(ef["initial"])), float(frac(ef["maximum"])), float(frac(ef["multiplier"])),
                     None if ef["deadline"] is None else float(frac(ef["deadline"])), sorted(ef["predicate"]))
             got = (er["initial"], er["maximum"], er["multiplier"], er["deadline"], sorted(er["exceptions"] or []))
             if want != got:
-                ctx.disagree("T3:c09.table.retry", f"{s['name']}.{m['name']} ({kind}): model {want} vs impl {got}", payload)
+                ctx.disagree("T3:c09.table.retry", f"{s['name']}.{name} ({kind}): model {want} vs impl {got}", payload)
 
 
 def check_calls(ctx, spec, s, asy, jitter, kept, sess):
@@ -490,6 +635,7 @@ def check_calls(ctx, spec, s, asy, jitter, kept, sess):
                  distinct_key=["call", json.dumps(spec["config"], sort_keys=True), p["svc_full"], p["method"], json.dumps(p["replies"]), json.dumps(ck, sort_keys=True), asy, jitter])
         ctx.count("fault_sequence", f"{min(len(p['replies']) - 1, 9)}err+{p['replies'][-1] if p['replies'][-1] == 'OK' else 'ERR'}")
         ctx.count("call_kind", ("explicit:" + "+".join(sorted(ck))) if ck else "defaults")
+        ctx.count("call_method_kind", p["kind"])
         for c in p["replies"]:
             ctx.count("status_code_served", c)
         ctx.count("model_result", mo["result"])
@@ -508,7 +654,7 @@ def check_calls(ctx, spec, s, asy, jitter, kept, sess):
         if isinstance(ck.get("retry"), dict):
             m_dl = None if ck["retry"]["deadline"] is None else num_fraction(ck["retry"]["deadline"])
         elif ck.get("retry") != "none":
-            st0 = statement_defaults(spec["config"], p["svc_full"], p["method"])
+            st0 = statement_defaults(spec["config"], p["svc_full"], p["method"]) if p["kind"] != "mixin" else MIXIN_NONE
             m_dl = st0["retry"]["deadline"] if st0["retry"] else None
         m_bounds = [frac(b) for b in mo["bounds"]]
         for i, a in enumerate(mo["attempts"]):
@@ -528,11 +674,11 @@ def check_calls(ctx, spec, s, asy, jitter, kept, sess):
             ctx.count("skipped", "asyncio server-streaming: error delivered after wait_for_connection (api-core/grpc.aio race)")
             ctx.assume("asyncio server-streaming methods: api-core retries only errors raised by wait_for_connection(); an error delivered later surfaces without retry (observed rarely on the loopback; not generator code)")
             continue
-        trs = [None if (x["time_remaining"] is None or x["time_remaining"] > 1e8) else x["time_remaining"] for x in srv]   # grpc reports "no deadline" as ~2^63
+        trs = [None if (x["time_remaining"] is None or x["time_remaining"] > 1e15) else x["time_remaining"] for x in srv]   # grpc reports "no deadline" as ~2^63
         cts = [t for pth, t in res.get("timeouts", []) if pth.endswith("/" + p["method"])]     # timeout= of each stub invocation (client side)
         tag = f"{p['service']}.{p['method']} ({'async' if asy else 'sync'}, jitter={jitter}) replies={p['replies'][:5]}{'…' if len(p['replies']) > 5 else ''} kwargs={ck}"
         # ---------------- oracle (statement, independent of the model)
-        st = statement_defaults(spec["config"], p["svc_full"], p["method"])
+        st = statement_defaults(spec["config"], p["svc_full"], p["method"]) if p["kind"] != "mixin" else MIXIN_NONE   # (assumption recorded by check_table)
         if isinstance(ck.get("retry"), dict):
             x = ck["retry"]
             rp = {"initial": num_fraction(x["initial"]), "maximum": num_fraction(x["maximum"]), "multiplier": num_fraction(x["multiplier"]),
